@@ -22,6 +22,7 @@ TCfg ==
 
 \* the recorded result and projection agree with the state the action produces
 Agrees ==
+  /\ ~E.panic                       \* a panic is never the specified result
   /\ E.ok = ret'.ok
   /\ (ret'.ok /\ E.op \in {"fill"}) => E.val = ret'.val
   /\ E.elems = elems'
